@@ -1414,11 +1414,14 @@ pub mod file_lines {
     pub struct StdinFile(std::sync::Arc<rustc_span::SourceFile>);
 
     pub fn stdin_file() -> StdinFile {
-        rustc_span::create_session_if_not_set_then(rustc_span::edition::Edition::Edition2015, |_| {
-            let (_psess, sf) =
-                crate::parse::session::verif_local::session_with_stdin(&Config::default(), "");
-            StdinFile(sf)
-        })
+        rustc_span::create_session_if_not_set_then(
+            rustc_span::edition::Edition::Edition2015,
+            |_| {
+                let (_psess, sf) =
+                    crate::parse::session::verif_local::session_with_stdin(&Config::default(), "");
+                StdinFile(sf)
+            },
+        )
     }
 
     /// `FileLines::intersects(&LineRange { stdin, lo, hi })`.
@@ -1449,17 +1452,21 @@ pub mod file_lines {
     pub fn span_lines_and_guard(text: &str, lo: u32, hi: u32, fl: &FileLines) -> (R, bool) {
         let mut config = Config::default();
         config.set().file_lines(fl.clone());
-        rustc_span::create_session_if_not_set_then(rustc_span::edition::Edition::Edition2015, |_| {
-            let (psess, sf) = crate::parse::session::verif_local::session_with_stdin(&config, text);
-            let span = mk_sp(sf.start_pos + BytePos(lo), sf.start_pos + BytePos(hi));
-            let lr = psess.lookup_line_range(span);
-            let ctx = Ctx {
-                config: &config,
-                psess: &psess,
-            };
-            let out = out_of_file_lines_range!(ctx, span);
-            ((lr.lo, lr.hi), out)
-        })
+        rustc_span::create_session_if_not_set_then(
+            rustc_span::edition::Edition::Edition2015,
+            |_| {
+                let (psess, sf) =
+                    crate::parse::session::verif_local::session_with_stdin(&config, text);
+                let span = mk_sp(sf.start_pos + BytePos(lo), sf.start_pos + BytePos(hi));
+                let lr = psess.lookup_line_range(span);
+                let ctx = Ctx {
+                    config: &config,
+                    psess: &psess,
+                };
+                let out = out_of_file_lines_range!(ctx, span);
+                ((lr.lo, lr.hi), out)
+            },
+        )
     }
 
     pub fn starts_with_newline(s: &str) -> bool {
